@@ -117,6 +117,7 @@ void set_pos(int pos);                          // per-vthread program position 
 // first successful write by this vthread into [addr, addr+len) since the call; 0 = none (C11)
 void watch_write(const void *addr, size_t len);
 uint64_t watched_write_seq();
+int watched_write_seqs(uint64_t *out, int max);  // every successful write into the watched range since watch_write (up to 8 are kept)
 
 // oracle code that touches instrumented atomics: executed raw (no scheduling, no clocks, no PRNG);
 // `cap` bounds the number of raw atomic operations, exceeding it sets overflowed().
